@@ -59,6 +59,7 @@ package keeper
 //@   ensures [C11.sched.rest] forall x string :: x != dataId ==> ((has(ExpiredData, expiredAt) && contains(ExpiredData[expiredAt].Data, x)) <==> (old(has(ExpiredData, expiredAt)) && contains(old(ExpiredData[expiredAt].Data), x)))
 
 // ResetMetaDuration recomputes the model's lifetime from its completed shards and reschedules its deletion
+//@ pure shardEnd(s order_Shard) int = s.CreatedAt + s.Duration + sumDur(s.RenewInfos, len(s.RenewInfos))
 //@ func (Keeper) ResetMetaDuration(ctx, meta)
 //@   requires meta != nil
 //@   requires [C11.sched.once] has(ExpiredData, u64(meta.CreatedAt + meta.Duration)) ==> forall i int, j int :: 0 <= i && i < j && j < len(ExpiredData[u64(meta.CreatedAt + meta.Duration)].Data)
@@ -77,9 +78,29 @@ package keeper
 //@       ==> forall h int :: 0 <= h && h <= MaxUint64 && has(ExpiredData, h) && contains(ExpiredData[h].Data, meta.DataId) ==> h == u64(meta.CreatedAt + meta.Duration)
 //@   ensures [C11.reset.sched.present] old(has(ExpiredData, u64(meta.CreatedAt + meta.Duration)) && contains(ExpiredData[u64(meta.CreatedAt + meta.Duration)].Data, meta.DataId))
 //@       ==> has(ExpiredData, u64(meta.CreatedAt + meta.Duration)) && contains(ExpiredData[u64(meta.CreatedAt + meta.Duration)].Data, meta.DataId)
-//@   loop L1 invariant -1 <= rangeindex
-//@   loop L2 invariant -1 <= rangeindex
-//@   loop L3 invariant -1 <= rangeindex
+//@   ensures [C11.reset.covers] old(forall i int :: 0 <= i && i <= MaxUint64 && has(Shard, i) ==> shardEnd(Shard[i]) <= MaxUint64) ==> forall a int, b int :: 0 <= a && a < len(meta.Orders) && has(Order, meta.Orders[a]) && 0 <= b && b < len(Order[meta.Orders[a]].Shards)
+//@       && has(Shard, Order[meta.Orders[a]].Shards[b]) && Shard[Order[meta.Orders[a]].Shards[b]].Status == ShardCompleted ==>
+//@       u64(meta.CreatedAt + meta.Duration) >= shardEnd(Shard[Order[meta.Orders[a]].Shards[b]])
+//@   loop L1 invariant -1 <= rangeindex && rangeindex < len(orders) && orders == meta.Orders && *meta == old(*meta)
+//@   loop L1 invariant [C11.reset.covers] old(forall i int :: 0 <= i && i <= MaxUint64 && has(Shard, i) ==> shardEnd(Shard[i]) <= MaxUint64) ==> forall k int :: 0 <= k && k <= MaxUint64 && shardExpiredMap[k] != 0 ==> has(Shard, k) && shardExpiredMap[k] == shardEnd(Shard[k]) && expiredHeight >= shardExpiredMap[k]
+//@   loop L1 invariant [C11.reset.covers] old(forall i int :: 0 <= i && i <= MaxUint64 && has(Shard, i) ==> shardEnd(Shard[i]) <= MaxUint64) ==> forall a int, b int :: 0 <= a && a <= rangeindex && has(Order, orders[a]) && 0 <= b && b < len(Order[orders[a]].Shards)
+//@       && has(Shard, Order[orders[a]].Shards[b]) && Shard[Order[orders[a]].Shards[b]].Status == ShardCompleted ==> expiredHeight >= shardEnd(Shard[Order[orders[a]].Shards[b]])
+//@   loop L2 invariant -1 <= rangeindex && rangeindex < len(order.Shards) && orders == meta.Orders && *meta == old(*meta)
+//@   loop L2 invariant rangeindex_L1 + 1 < len(orders) && has(Order, orders[rangeindex_L1 + 1]) && order == Order[orders[rangeindex_L1 + 1]]
+//@   loop L2 invariant [C11.reset.covers] old(forall i int :: 0 <= i && i <= MaxUint64 && has(Shard, i) ==> shardEnd(Shard[i]) <= MaxUint64) ==> forall k int :: 0 <= k && k <= MaxUint64 && shardExpiredMap[k] != 0 ==> has(Shard, k) && shardExpiredMap[k] == shardEnd(Shard[k]) && expiredHeight >= shardExpiredMap[k]
+//@   loop L2 invariant [C11.reset.covers] old(forall i int :: 0 <= i && i <= MaxUint64 && has(Shard, i) ==> shardEnd(Shard[i]) <= MaxUint64) ==> forall a int, b int :: 0 <= a && a <= rangeindex_L1 && has(Order, orders[a]) && 0 <= b && b < len(Order[orders[a]].Shards)
+//@       && has(Shard, Order[orders[a]].Shards[b]) && Shard[Order[orders[a]].Shards[b]].Status == ShardCompleted ==> expiredHeight >= shardEnd(Shard[Order[orders[a]].Shards[b]])
+//@   loop L2 invariant [C11.reset.covers] old(forall i int :: 0 <= i && i <= MaxUint64 && has(Shard, i) ==> shardEnd(Shard[i]) <= MaxUint64) ==> forall b int :: 0 <= b && b <= rangeindex && has(Shard, order.Shards[b]) && Shard[order.Shards[b]].Status == ShardCompleted ==> expiredHeight >= shardEnd(Shard[order.Shards[b]])
+//@   loop L3 invariant -1 <= rangeindex && rangeindex < len(shard.RenewInfos) && orders == meta.Orders && *meta == old(*meta)
+//@   loop L3 invariant rangeindex_L1 + 1 < len(orders) && has(Order, orders[rangeindex_L1 + 1]) && order == Order[orders[rangeindex_L1 + 1]]
+//@   loop L3 invariant rangeindex_L2 + 1 < len(order.Shards) && shardId == order.Shards[rangeindex_L2 + 1] && has(Shard, shardId) && shard == Shard[shardId] && shard.Status == ShardCompleted
+//@   loop L3 invariant (old(forall i int :: 0 <= i && i <= MaxUint64 && has(Shard, i) ==> shardEnd(Shard[i]) <= MaxUint64) ==> shard.CreatedAt + shard.Duration + sumDur(shard.RenewInfos, len(shard.RenewInfos)) <= MaxUint64) && (forall k int :: 0 <= k && k < len(shard.RenewInfos) ==> shard.RenewInfos[k].Duration >= 0)
+//@   loop L3 invariant 0 <= sumDur(shard.RenewInfos, rangeindex + 1) && sumDur(shard.RenewInfos, rangeindex + 1) <= sumDur(shard.RenewInfos, len(shard.RenewInfos))
+//@   loop L3 invariant [C11.reset.covers] old(forall i int :: 0 <= i && i <= MaxUint64 && has(Shard, i) ==> shardEnd(Shard[i]) <= MaxUint64) ==> shardExpiredMap[shardId] == shard.CreatedAt + shard.Duration + sumDur(shard.RenewInfos, rangeindex + 1)
+//@   loop L3 invariant [C11.reset.covers] old(forall i int :: 0 <= i && i <= MaxUint64 && has(Shard, i) ==> shardEnd(Shard[i]) <= MaxUint64) ==> forall k int :: 0 <= k && k <= MaxUint64 && k != shardId && shardExpiredMap[k] != 0 ==> has(Shard, k) && shardExpiredMap[k] == shardEnd(Shard[k]) && expiredHeight >= shardExpiredMap[k]
+//@   loop L3 invariant [C11.reset.covers] old(forall i int :: 0 <= i && i <= MaxUint64 && has(Shard, i) ==> shardEnd(Shard[i]) <= MaxUint64) ==> forall a int, b int :: 0 <= a && a <= rangeindex_L1 && has(Order, orders[a]) && 0 <= b && b < len(Order[orders[a]].Shards)
+//@       && has(Shard, Order[orders[a]].Shards[b]) && Shard[Order[orders[a]].Shards[b]].Status == ShardCompleted ==> expiredHeight >= shardEnd(Shard[Order[orders[a]].Shards[b]])
+//@   loop L3 invariant [C11.reset.covers] old(forall i int :: 0 <= i && i <= MaxUint64 && has(Shard, i) ==> shardEnd(Shard[i]) <= MaxUint64) ==> forall b int :: 0 <= b && b <= rangeindex_L2 && has(Shard, order.Shards[b]) && Shard[order.Shards[b]].Status == ShardCompleted ==> expiredHeight >= shardEnd(Shard[order.Shards[b]])
 
 // RollbackMeta: after a cancelled or timed-out update the model returns to its last committed version, or disappears
 // together with its alias if it never had one.
@@ -101,6 +122,11 @@ package keeper
 //@   ensures [C11.rollback.sched.present] [C13.rollback.sched.present] old(has(Metadata, dataId)) && len(old(Metadata[dataId].Commits)) > 0 && len(old(Metadata[dataId].Orders)) > 0
 //@       && old(has(ExpiredData, u64(Metadata[dataId].CreatedAt + Metadata[dataId].Duration)) && contains(ExpiredData[u64(Metadata[dataId].CreatedAt + Metadata[dataId].Duration)].Data, dataId)) ==>
 //@       has(ExpiredData, u64(Metadata[dataId].CreatedAt + Metadata[dataId].Duration)) && contains(ExpiredData[u64(Metadata[dataId].CreatedAt + Metadata[dataId].Duration)].Data, dataId)
+//@   ensures [C11.rollback.covers] old(has(Metadata, dataId)) && len(old(Metadata[dataId].Commits)) > 0 && len(old(Metadata[dataId].Orders)) > 0
+//@       && old(forall i int :: 0 <= i && i <= MaxUint64 && has(Shard, i) ==> shardEnd(Shard[i]) <= MaxUint64) ==>
+//@       forall a int, b int :: 0 <= a && a < len(Metadata[dataId].Orders) && has(Order, Metadata[dataId].Orders[a]) && 0 <= b && b < len(Order[Metadata[dataId].Orders[a]].Shards)
+//@       && has(Shard, Order[Metadata[dataId].Orders[a]].Shards[b]) && Shard[Order[Metadata[dataId].Orders[a]].Shards[b]].Status == ShardCompleted ==>
+//@       u64(Metadata[dataId].CreatedAt + Metadata[dataId].Duration) >= shardEnd(Shard[Order[Metadata[dataId].Orders[a]].Shards[b]])
 //@   ensures [C05.rollback.remove] [C13.rollback.remove] old(has(Metadata, dataId)) && len(old(Metadata[dataId].Commits)) == 0 ==> !has(Metadata, dataId)
 //@       && !has(Model, sprintf("%s-%s-%s", old(Metadata[dataId].Owner), old(Metadata[dataId].Alias), old(Metadata[dataId].GroupId)))
 //@   ensures [C05.rollback.unschedule] old(has(Metadata, dataId)) && len(old(Metadata[dataId].Commits)) == 0 ==>
